@@ -2,7 +2,7 @@
 # runs every property's check in the given tier, one after the other; prints a one-line result per property
 cd "$(dirname "$0")/.."
 tier=${1:-quick}; mkdir -p build
-for p in C01 C02 C03 C04 C05 C06 C07 C08 C09 C10 C11 C12 C13 C14 C15 C16 C17; do
+for p in ${VK_PROPS:-C03 C04 C09 C12 C13 C14 C16 C17 C15 C11 C06 C10 C01 C05 C02 C08 C07}; do
   t0=$(date +%s)
   ./check $p --tier $tier > build/run_$p.log 2>&1; rc=$?
   t1=$(date +%s)
